@@ -2,6 +2,7 @@ mod config;
 mod gen;
 mod net;
 mod oracle;
+mod psched;
 mod rng;
 mod sched;
 mod seq;
@@ -131,7 +132,9 @@ fn main() {
         }
         "sched" => {
             let per_case: usize = get("per_case", "60").parse().unwrap();
-            let (ops, outs, viols, st) = if let Some(f) = m.get("ops") {
+            let (ops, outs, viols, st) = if m.get("ops").map(|f| std::fs::read_to_string(f).map(|t| t.contains("pcnew ")).unwrap_or(false)).unwrap_or(false) {
+                psched::replay(&std::fs::read_to_string(m.get("ops").unwrap()).expect("ops file"))
+            } else if let Some(f) = m.get("ops") {
                 // replay literal lines (corpus witnesses, replay files), with the same oracle
                 let txt = std::fs::read_to_string(f).expect("ops file");
                 let mut r = sched::SchedRunner::new();
@@ -167,7 +170,7 @@ fn main() {
                 }
                 (ops, outs, viols, sched::SchedStats { cases: n, schedules: n, nonlinearizable_known: Default::default(), distinct_outcomes: Default::default(), samples: vec![] })
             } else {
-                if profile == "C14" { sched::run_policy_suite(seed, count, per_case, trace()) } else { sched::run_suite(&profile, seed, count, per_case, trace()) }
+                if profile == "C14deep" { psched::run_suite(seed, count, per_case, trace()) } else if profile == "C14" { sched::run_policy_suite(seed, count, per_case, trace()) } else { sched::run_suite(&profile, seed, count, per_case, trace()) }
             };
             std::fs::write(format!("{}/ops.txt", out), ops.join("\n") + "\n").unwrap();
             std::fs::write(format!("{}/impl.txt", out), outs.join("\n") + "\n").unwrap();
